@@ -334,7 +334,7 @@ def r04_3(rep: Report) -> None:
             if cn == 'self.post_encode_all':
                 order.append(('post', pos_of.get(id(n), n.lineno)))
         if isinstance(n, ast.Assign) and norm(n.targets[0]) == 'self.size' \
-                and norm(n.value) == 'out.tell() - self.position':
+                and norm(subst_locals(enc, n.value, allow_calls=True)) == 'out.tell() - self.position':
             order.append(('size', pos_of.get(id(n), n.lineno)))
     seq = [k for k, _ in sorted(order, key=lambda x: x[1])]
     want = ['fields', 'children', 'size', 'seek-start', 'post']
